@@ -1,9 +1,9 @@
 #!/bin/bash
-# usage: seedtest.sh <PROP> <worktree> <letter> [tier]
+# usage: seedtest.sh <PROP> <worktree> <letter> [tier] [stored-letter]
 # Confirms a seeded change in the scratch worktree (tests unchanged, demo fails with / passes without), then runs the
 # property's check against the worktree (PRYSM_REPO) with the change applied.  Results go to /verif/seeded/<PROP>-<letter>/.
-PROP=$1; WT=$2; L=$3; TIER=${4:-quick}
-OUT=/verif/seeded/$PROP-$L
+PROP=$1; WT=$2; L=$3; TIER=${4:-quick}; STORE=${5:-$L}
+OUT=/verif/seeded/$PROP-$STORE
 mkdir -p $OUT
 cp $WT/_seed/mutant$L.diff $OUT/patch.diff
 cp $WT/_seed/demo_$L.py $OUT/demo.py
@@ -23,7 +23,7 @@ NV=$(grep -c "^VIOLATION" $OUT/check.log)
 echo "check exit=$RC violations=$NV :: $(tail -1 $OUT/check.log)"
 python3 - <<PY
 import json
-json.dump({"property":"$PROP","mutant":"$L","demo_exit_clean":$CLEAN,"demo_exit_mutant":$MUT,"tests_with_mutant":"""$TESTS""".strip(),
+json.dump({"property":"$PROP","mutant":"$STORE","demo_exit_clean":$CLEAN,"demo_exit_mutant":$MUT,"tests_with_mutant":"""$TESTS""".strip(),
 "check_cmd":"./check $PROP --tier $TIER","check_exit":$RC,"violation_lines":$NV,"detected":bool($RC==1 and $NV>0)}, open("$OUT/meta.json","w"), indent=1)
 PY
 find /verif/evidence/replays -name "$PROP-*.json" -delete
